@@ -122,7 +122,10 @@ func genDigits(t *rapid.T, n int) *big.Int {
 }
 
 // genCoef draws a coefficient in [0, Cmax] with the shapes listed in DESIGN §4.
-func genCoef(t *rapid.T) *big.Int {
+// The result is always a fresh big.Int (never a shared constant).
+func genCoef(t *rapid.T) *big.Int { return new(big.Int).Set(genCoefShared(t)) }
+
+func genCoefShared(t *rapid.T) *big.Int {
 	switch rapid.IntRange(0, 15).Draw(t, "coefKind") {
 	case 0:
 		return new(big.Int).Sub(ref.Cmax, bi(int64(rapid.IntRange(0, 3).Draw(t, "cmaxOff"))))
